@@ -86,14 +86,14 @@ type Contracts struct {
 var clauseKeywords = map[string]bool{
 	"requires": true, "ensures": true, "modifies": true, "let": true, "ext": true, "loop": true,
 	"onwrite": true, "hint": true, "mode": true, "assume": true, "guards": true, "owns": true,
-	"invariant": true, "inline": true, "props": true, "by": true, "oncall": true, "atexit": true, "havoc": true, "assert": true, "locks": true, "premise": true, "witness": true,
+	"invariant": true, "inline": true, "props": true, "by": true, "oncall": true, "atexit": true, "havoc": true, "assert": true, "locks": true, "premise": true, "witness": true, "purecalls": true, "oldlet": true, "builder": true,
 }
 var topKeywords = map[string]bool{
 	"func": true, "extfunc": true, "pure": true, "ghost": true, "monitor": true, "lemma": true,
 	"frozen": true, "confined": true, "typeinv": true, "axiom": true, "const": true,
 }
 
-var labelRe = regexp.MustCompile(`^\[([A-Za-z0-9_.\-]+)\]\s*`)
+var labelRe = regexp.MustCompile(`^\[([A-Za-z0-9_.+\-]+)\]\s*`)
 
 func loadContracts(repo string, pkgDirs map[string]string) (*Contracts, error) {
 	c := &Contracts{Funcs: map[string][]*FuncContract{}, Pure: map[string]*PureFunc{}, Ghost: map[string]*GhostField{},
@@ -254,7 +254,7 @@ func (c *Contracts) parseFile(pkgPath, file string) error {
 				rest = rest[len(m[0]):]
 			}
 			switch first {
-			case "let", "ext", "witness":
+			case "let", "ext", "witness", "oldlet":
 				k := strings.Index(rest, ":=")
 				if k < 0 {
 					return fmt.Errorf("%s: expected name := expr", d.src)
